@@ -1,4 +1,5 @@
 import FM.Lemmas.Plumbing
+import FM.Lemmas.Route
 import FM.Generated.Plumbing
 /-
   C15 — All entry points agree: CLI, file API and text API give the same bytes.
@@ -79,5 +80,80 @@ theorem OPTIONS_CTOR_COMPLETE :
 /-- non-vacuity: the semantic statement instantiated on a concrete valuation. -/
 example : applyAll (chainToText (reformatFileCalls.getD 1 []))
     (fun k => if k == "semantic" then .b true else .s k) "semantic" = .b true := by decide
+
+/-! ### routing (model `FM/Model/Route.lean` of reformat_file / reformat_files, tied by op `route`) -/
+section Routing
+open FM.Route
+
+/-- ROUTE_ERRORS ("usage errors … without writing anything"): a run is refused — as a whole, before any action: the
+result type carries either the error or the actions, never both — exactly when `--inplace` meets stdin, or an
+output path is given without `--inplace` for anything but the single stdin input. -/
+theorem ROUTE_ERRORS (files : List Arg) (output : Out) (inplace nobackup : Bool) :
+    (∃ e, reformatFiles files output inplace nobackup = .error e) ↔
+      ((inplace = true ∧ Arg.stdin ∈ files) ∨
+       (inplace = false ∧ (∃ o, output = .path o) ∧ files ≠ [.stdin])) := by
+  unfold reformatFiles
+  by_cases h1 : files = [.stdin]
+  · subst h1
+    cases inplace <;> cases output <;> simp [reformatFile, Except.map]
+  · simp only [h1, if_false]
+    cases inplace
+    · cases output <;> simp [h1]
+    · by_cases hs : Arg.stdin ∈ files <;> simp [hs]
+
+/-- ROUTE_STDOUT_EACH_ALONE: without `--inplace`, the standard output of a run over several inputs is the
+concatenation, in argument order, of what each input gives alone. -/
+theorem ROUTE_STDOUT_EACH_ALONE (files : List Arg) (output : Out) (nobackup : Bool) (acts : List Action)
+    (h : reformatFiles files output false nobackup = .ok acts) (hm : files ≠ [.stdin]) :
+    acts = files.map .toStdout ∧
+    ∀ f ∈ files, reformatFiles [f] .stdout false nobackup = .ok [.toStdout f] := by
+  constructor
+  · unfold reformatFiles at h
+    simp only [hm, if_false, Bool.false_and, Bool.false_eq_true, Bool.not_false, Bool.true_and] at h
+    split at h
+    · cases h
+    · simpa using h.symm
+  · intro f _
+    cases f <;> simp [reformatFiles, reformatFile, Except.map]
+
+/-- ROUTE_INPLACE_OWN_TEXT ("each file gets exactly the result it would get alone"; "never mixed"): with
+`--inplace` every action writes a file's own formatted text over that same file, with a backup unless
+`--nobackup`; every file argument is written; none twice. -/
+theorem ROUTE_INPLACE_OWN_TEXT (files : List Arg) (output : Out) (nobackup : Bool) (acts : List Action)
+    (h : reformatFiles files output true nobackup = .ok acts) :
+    (∀ a ∈ acts, ∃ id, a = .toFile (.file id) id (!nobackup) ∧ Arg.file id ∈ files) ∧
+    (∀ id, Arg.file id ∈ files → Action.toFile (.file id) id (!nobackup) ∈ acts) ∧
+    (acts.filterMap Action.target?).Nodup := by
+  unfold reformatFiles at h
+  by_cases h1 : files = [.stdin]
+  · subst h1; simp [reformatFile, Except.map] at h
+  · simp only [h1, if_false, Bool.true_and] at h
+    split at h
+    · cases h
+    · simp only [Bool.not_true, Bool.false_and, Bool.false_eq_true, if_false, if_true] at h
+      have : acts = inplaceLoop nobackup files [] := by cases h; rfl
+      subst this
+      refine ⟨?_, ?_, inplaceLoop_nodup nobackup files []⟩
+      · intro a ha
+        obtain ⟨id, h1, h2, _⟩ := inplaceLoop_shape nobackup files [] a ha
+        exact ⟨id, h1, h2⟩
+      · intro id hid
+        exact inplaceLoop_complete nobackup files [] id hid (by simp)
+
+/-- ROUTE_STDIN_TO_OUTPUT: the single stdin input goes to the output path when one is given (no backup), else to
+standard output; `--inplace` is refused. -/
+theorem ROUTE_STDIN_TO_OUTPUT (output : Out) (nobackup : Bool) :
+    reformatFiles [.stdin] output false nobackup =
+      .ok [match output with | .path o => .toFile .stdin o false | _ => .toStdout .stdin] ∧
+    reformatFiles [.stdin] output true nobackup = .error .inplaceStdin := by
+  cases output <;> simp [reformatFiles, reformatFile, Except.map]
+
+/-- non-vacuity: `a.md ./a.md b.md` in place with backups — two actions, `a.md` once. -/
+example : reformatFiles [.file 0, .file 0, .file 1] .none true false
+    = .ok [.toFile (.file 0) 0 true, .toFile (.file 1) 1 true] := by rfl
+example : reformatFiles [.file 0, .stdin] .none true false = .error .inplaceStdin := by rfl
+example : reformatFiles [.file 0] (.path 5) false false = .error .outputMulti := by rfl
+
+end Routing
 
 end FM.C15
